@@ -308,7 +308,7 @@ class Main(Part):
                     return
                 # past the time budget new histories become no-ops (only while nothing has failed: a failing history
                 # must fail again when Hypothesis replays it)
-                self.dead = time.time() > deadline and not failed
+                self.dead = time.time() > deadline and not failed and res.evaluations >= 30
                 if self.dead:
                     res.budget_hit = True
 
